@@ -383,6 +383,10 @@ fn check_history(w: &Work, rep: &mut Reporter, zone0: &Zone, fixed: Option<&[Upd
         }
         let mut fs = Vec::new();
         judge(&rec, k, &r, &mut fs);
+        {
+            let nf = fs.len();
+            rep.sample(|| json!({"case": case_json(&rec, upto(m), "row-cut", k, &[]), "window": class, "oracle_findings": nf}));
+        }
         for f in fs {
             let c = case_json(&rec, upto(m), "row-cut", k, &[]);
             out.push((f, c));
